@@ -241,6 +241,7 @@ struct St {
     abort: bool,
     t_count: usize,
     ipt: usize,
+    force_tries: u32,
 }
 
 const PASS: usize = usize::MAX;
@@ -276,8 +277,14 @@ impl St {
         if self.granted.is_some() || self.running.is_some() || self.waiting.is_empty() {
             return false;
         }
+        if force {
+            self.force_tries += 1;
+        }
+        // forced (partial) readiness would make the enabled set depend on timing: the
+        // exhaustive search only accepts it after 5 s without progress
+        let allow_force = force && (!matches!(self.policy, Policy::Explore(_)) || self.force_tries > 50);
         let ready = self.waiting.len() + self.ended == self.expected
-            || (force && self.begun > 0 && self.waiting.len() + self.ended == self.begun);
+            || (allow_force && self.begun > 0 && self.waiting.len() + self.ended == self.begun);
         let pass = self.sched.len().saturating_sub(1);
         let lowest = *self.waiting.keys().next().unwrap();
         let pick: Option<usize> = match &mut self.policy {
@@ -390,6 +397,7 @@ impl St {
         match pick {
             Some(t) => {
                 self.granted = Some(t);
+                self.force_tries = 0;
                 true
             }
             None => false,
@@ -633,6 +641,7 @@ fn run_controlled(inst: &Inst, policy: Policy) -> CtlRun {
             abort: false,
             t_count: 0,
             ipt: 0,
+            force_tries: 0,
         }),
         Condvar::new(),
     ));
@@ -1133,18 +1142,37 @@ fn tiny(n: usize, edges: &[(usize, usize)], parts: &[usize], imb: Option<f64>) -
     Inst::from_edges(n, 2, imb, &e, vec![1; n], parts.to_vec())
 }
 
+static EXPLORE_RETRIES: std::sync::atomic::AtomicUsize = std::sync::atomic::AtomicUsize::new(0);
+
 /// Stateless DFS over scheduler choices (sleep sets when `reduce`). Calls `f` on every
 /// complete non-redundant run; returns (runs, complete?).
 fn explore(inst: &Inst, reduce: bool, cap: usize, mut f: impl FnMut(&CtlRun)) -> (usize, usize, bool) {
     let mut ex = Explore { stack: vec![], depth: 0, blocked: false, reduce };
     let mut runs = 0;
     let mut redundant = 0;
+    let mut retries = 0;
     loop {
         ex.depth = 0;
         ex.blocked = false;
+        let prefix = ex.stack.len();
         let r = run_controlled(inst, Policy::Explore(ex));
         runs += 1;
-        let bad = !matches!(r.out, Outcome::Ok(..)) || !r.anomalies.is_empty();
+        // a scheduler anomaly (timing) is not an outcome of the implementation: retry the
+        // same prefix, give up on the instance (reported as truncated) after 3 attempts;
+        // a panic / hang / error is recorded and stops the search
+        if matches!(r.out, Outcome::Ok(..)) && !r.anomalies.is_empty() {
+            let Policy::Explore(mut e2) = r.policy else { unreachable!() };
+            e2.stack.truncate(prefix);
+            ex = e2;
+            retries += 1;
+            EXPLORE_RETRIES.fetch_add(1, std::sync::atomic::Ordering::Relaxed);
+            if retries > 3 {
+                return (runs, redundant, false);
+            }
+            continue;
+        }
+        retries = 0;
+        let bad = !matches!(r.out, Outcome::Ok(..));
         let Policy::Explore(e2) = &r.policy else { unreachable!() };
         if e2.blocked {
             redundant += 1;
@@ -1257,8 +1285,8 @@ pub fn generate(ctx: &mut Ctx) {
         ("tri-pendant-0102-imb.5", tiny(4, &[(0, 1), (1, 2), (0, 2), (2, 3)], &[0, 1, 0, 2], h)),
         ("triangle-011-imb.5", tiny(3, &[(0, 1), (1, 2), (0, 2)], &[0, 1, 1], h)),
     ];
-    let total_cap = ctx.budget(2500, 150000);
-    let per_inst = ctx.budget(200, 20000);
+    let total_cap = ctx.budget(12000, 150000);
+    let per_inst = ctx.budget(1200, 20000);
     let mut total = 0usize;
     let (mut full, mut trunc, mut redundant_total) = (0, 0, 0);
     for (name, inst) in &tinies {
@@ -1340,6 +1368,10 @@ pub fn generate(ctx: &mut Ctx) {
             let idx = ctx.record(inst.ctl_op(&[]), "explore-crosscheck".into(), false);
             ctx.fail(idx, "explore-reduction-unsound", "an outcome of the unreduced search is missing from the reduced one".into());
         }
+    }
+    let retried = EXPLORE_RETRIES.load(std::sync::atomic::Ordering::Relaxed);
+    if retried > 0 {
+        *ctx.hist.entry("exhaustive_runs_retried_after_scheduler_anomaly".into()).or_insert(0) += retried as u64;
     }
     ctx.notes.push(format!(
         "exhaustive: {} tiny 2-worker instances (n <= 4) fully enumerated up to commutation of independent accesses (sleep sets), {} instances truncated at the cap; {} runs, {} of them redundant (sleep-set blocked, not recorded)",
